@@ -58,6 +58,7 @@ type Scenario struct {
 	Shared2    bool       `json:"shared2,omitempty"`       // the second graph is made of the second Task objects (the ones add2 hands to the first graph)
 	Rerun      bool       `json:"rerun,omitempty"`         // call Run a second time on the same graph
 	PctIDs     bool       `json:"percent_ids,omitempty"`   // task IDs and the graph name contain a percent sign
+	ErrsKind   int        `json:"errs_kind,omitempty"`     // the error a failing task returns is a *dag.Errors value (a sub-graph run as a task, a collected report): 1 = without entries, 2 = with one entry
 	ViaTask    bool       `json:"via_task,omitempty"`      // the second graph gets its shared tasks through g.Task(id) of the first one
 	TickerZero bool       `json:"ticker_zero,omitempty"`   // Graph.TickerDuration = 0
 	Literal    bool       `json:"literal_tasks,omitempty"` // tasks are struct literals &dag.Task{ID, Fn} instead of dag.NewTask results
@@ -111,6 +112,11 @@ func (sc *Scenario) String() string {
 	}
 	if sc.PctIDs {
 		s += " (percent signs in IDs)"
+	}
+	if sc.ErrsKind == 1 {
+		s += " (failing tasks return an empty *dag.Errors)"
+	} else if sc.ErrsKind == 2 {
+		s += " (failing tasks return a *dag.Errors with one entry)"
 	}
 	if sc.ViaTask {
 		s += " (shared through g.Task(id))"
@@ -648,6 +654,12 @@ func (r *run) main() {
 	for i := 0; i < n; i++ {
 		i := i
 		r.sentinel[i] = fmt.Errorf("task-%s-failed", tid(i))
+		switch sc.ErrsKind {
+		case 1:
+			r.sentinel[i] = &dag.Errors{Msg: "collected by task " + tid(i)}
+		case 2:
+			r.sentinel[i] = &dag.Errors{Msg: "sub-graph of task " + tid(i), Errors: []error{fmt.Errorf("inner-%s-failed", tid(i))}}
+		}
 		id := tid(i)
 		if sc.PctIDs {
 			id = tid(i) + ">=80%d 100%" // a legal ID; the library must not use it as a format string
